@@ -505,6 +505,8 @@ func TestRemoteSharedTx(t *testing.T) {
 		}
 		if bad != nil {
 			out.Diverge(vh.Divergence{Key: bad.key, What: "[" + backend + "] " + bad.what, Input: input})
+			w.shutdown("cancel")
+			break // reproduced: more rounds add nothing and each costs the timeout
 		} else {
 			_ = tx.Close()
 			out.Done(1, g*60)
